@@ -577,9 +577,18 @@ func c11Observers() []c11Class {
 	add("since>until", 'F', func(r *rand.Rand, m *c11Msg) string {
 		f := c11PickFilter(r, m)
 		u := r.Int64N(1 << 40)
+		d := 1 + r.Int64N(1000)
+		switch r.IntN(6) {
+		case 0: // the smallest possible window end: 0 is a timestamp, not "no bound"
+			u = 0
+		case 1: // off by exactly one
+			d = 1
+		case 2: // far apart, at the top of the range
+			u, d = r.Int64N(1000), 1<<62+r.Int64N(1<<62)
+		}
 		f.put("until", c11I(u))
-		f.put("since", c11I(u+1+r.Int64N(1000)))
-		return ""
+		f.put("since", c11I(u+d))
+		return fmt.Sprintf("until=%d", min(u, 2))
 	})
 	add("empty-tag", 'E', func(r *rand.Rand, m *c11Msg) string { c11SetElem(r, m.event.get("tags"), c11A()); return "" })
 	add("empty-tag-name", 'E', func(r *rand.Rand, m *c11Msg) string {
